@@ -9,6 +9,7 @@ import (
 	"math/rand"
 	"net/url"
 	"strings"
+	"time"
 
 	"google.golang.org/protobuf/encoding/protojson"
 	"google.golang.org/protobuf/proto"
@@ -214,8 +215,19 @@ func CheckC01(run *Run) {
 	}
 	reqs = append(reqs, RandomRouteRequests(rng, nRandom)...)
 	reqs = append(reqs, RandomSchemas(rng, nRandom, false)...)
+	// the feature packages: boundary values through the emitted JSON codecs and the transport
+	featIDs := map[string]bool{}
+	for _, r := range CallFeatureRequests() {
+		featIDs[r.ID] = true
+		reqs = append(reqs, r)
+	}
+	phase := map[string]float64{}
+	tPhase := time.Now()
+	mark := func(name string) { phase[name] = time.Since(tPhase).Seconds(); tPhase = time.Now() }
 	s := NewSession(run, reqs)
+	mark("generate")
 	s.BuildRuntime(false)
+	mark("build_runtime")
 	var cases []*callCase
 	vg := &ValueGen{Rng: rng}
 	for i, r := range reqs {
@@ -223,6 +235,9 @@ func CheckC01(run *Run) {
 		if !s.InRunner[r.ID] {
 			run.Notes = append(run.Notes, fmt.Sprintf("%s: emitted package does not build (C13's subject); not driven", r.ID))
 			continue
+		}
+		if featIDs[r.ID] {
+			continue // driven by the boundary sweep below
 		}
 		for _, f := range r.Files {
 			for _, svc := range f.Services {
@@ -294,6 +309,46 @@ func CheckC01(run *Run) {
 		}
 	}
 
+	// feature packages: every boundary value of the pools (SweepValues) as RESPONSE, and as request where
+	// the verb carries a body, under all three content types; bodiless verbs get random URL-bound requests.
+	full := run.Tier == "thorough"
+	for i, r := range reqs {
+		if !featIDs[r.ID] || !s.InRunner[r.ID] {
+			continue
+		}
+		g := s.Gens[i]
+		for _, f := range r.Files {
+			for _, svc := range f.Services {
+				for _, md := range svc.Methods {
+					in := g.Built.MessageDesc(md.In)
+					out := g.Built.MessageDesc(md.Out)
+					resps, _ := SweepValues(out, full)
+					for k := 0; k < perRPC; k++ {
+						resps = append(resps, vg.Random(out, 0.8))
+					}
+					var rqs []*dynamicpb.Message
+					if md.Verb == "POST" || md.Verb == "PUT" || md.Verb == "PATCH" || md.Verb == "" {
+						rqs, _ = SweepValues(in, full)
+					}
+					for k := 0; k < 3; k++ {
+						rqs = append(rqs, vg.Random(in, 0.8))
+					}
+					n := len(resps)
+					if len(rqs) > n && md.In != md.Out {
+						n = len(rqs)
+					}
+					for k := 0; k < n; k++ {
+						for ct := 0; ct < 3; ct++ {
+							rm := proto.Clone(rqs[(k+ct)%len(rqs)]).(*dynamicpb.Message)
+							pathBoundNonEmpty(rm, md, rng)
+							cases = append(cases, &callCase{req: r, g: g, svc: svc, md: md, ct: ct, reqMsg: rm, resp: resps[k%len(resps)], family: "feature-call"})
+						}
+					}
+				}
+			}
+		}
+	}
+
 	// run on the implementation
 	scen := make([]any, len(cases))
 	for i, c := range cases {
@@ -301,10 +356,12 @@ func CheckC01(run *Run) {
 			"req": WireHex(c.reqMsg), "script": map[string]any{"resp": WireHex(c.resp)},
 			"opts": map[string]any{"ContentType": ctNames[c.ct]}}
 	}
+	mark("cases")
 	raw, err := RunScenarios(s.Runner, scen, 8)
 	if err != nil {
 		run.Fatal("runner: %v", err)
 	}
+	mark("run_scenarios")
 	// model
 	var defs strings.Builder
 	defIdx := map[string]int{}
@@ -339,6 +396,8 @@ func CheckC01(run *Run) {
 	if err != nil {
 		run.Fatal("model evaluation: %v", err)
 	}
+	mark("model")
+	run.Extra["phase_seconds"] = phase
 	for i, cr := range results {
 		cr.Apply(vs[i])
 		if cr.Unmodelled != "" && !cr.OracleHolds {
